@@ -165,6 +165,62 @@ def run_slice_mon(job: dict, prop: str, obligations: Callable[[Counter], int],
                                                       "replay": {"scn": scn_v, "sched": rsched}})
             elif len(res["samples"]) < 2 and nontrivial and i % 7 == 0:
                 res["samples"].append(compact_sample(scn_v, tr, a, sched))
+    # ---- bounded-exhaustive schedules: stateless DFS over every order in which in-flight replies can
+    # complete at quiescent points, for small scenarios; every schedule goes through the same oracle ----
+    n_dfs = job.get("dfs_cases", 0)
+    for j in range(job["windex"], n_dfs, job["nworkers"]):
+        pname = "tiny" if j % 2 else "tiny_flat"
+        prof = dict(PROFILES[pname])
+        scn = gen_scenario(H(seed, "dfs", pname, j) % (1 << 48), prof)
+        scn["config"]["debug"] = False
+        if job.get("force_lazy") is not None:
+            scn["config"]["lazy"] = job["force_lazy"]
+        sh = scn_hash(scn)
+        prefix: List[int] = []
+        n_sched = 0
+        t_stop = time.time() + job.get("dfs_budget_s", 2.0)
+        exhausted = False
+        orders = set()
+        while True:
+            tr = run_case(scn, {"policy": "replay", "schedule": list(prefix)})
+            a = Analysis(scn, tr)
+            res["evaluations"] += 1
+            n_sched += 1
+            oh = order_hash(tr["events"])
+            orders.add(oh)
+            if tr["stats"]["max_inflight_sims"] >= 2 and obligations(a.stats) > 0:
+                res["hashes"].add(H(sh, oh, "dfs") % (1 << 52))
+            viol = list(a.viol.get(prop, []))
+            if post is not None:
+                viol.extend(post(scn, tr, a))
+            for vv in viol:
+                kf = findings.match(prop, vv, KF)
+                if kf is not None:
+                    C["known_" + kf["id"]] += 1
+                    continue
+                C["unlisted_violations"] += 1
+                C["violation_" + vv["kind"]] += 1
+                if n_unlisted_stored < job.get("max_viol", 12):
+                    n_unlisted_stored += 1
+                    res["violations"].append({"v": dict(vv, profile=pname, schedule="dfs"),
+                                              "replay": {"scn": scn, "sched": {"policy": "replay",
+                                                                               "schedule": list(tr["schedule"])}}})
+            taken = [c if isinstance(c, int) else c[0] for c in tr["schedule"]]
+            br = tr["branching"]
+            q = len(taken) - 1
+            while q >= 0 and taken[q] + 1 >= br[q]:
+                q -= 1
+            if q < 0:
+                exhausted = True
+                break
+            prefix = taken[:q] + [taken[q] + 1]
+            if n_sched >= job.get("dfs_cap", 300) or time.time() > t_stop:
+                break
+        C["dfs_scenarios"] += 1
+        C["dfs_schedules"] += n_sched
+        C["dfs_distinct_orders"] += len(orders)
+        if exhausted:
+            C["dfs_scenarios_exhausted"] += 1
     # ---- a sample of the same scenarios over real processes (engine B): same oracles over the
     # event list merged by the system-wide monotonic clock -----------------------------------
     n_remote = job.get("remote_cases", 0)
